@@ -120,8 +120,8 @@ theorem Tw.mono {m mu : M α} {R R' : α → α → Prop} (h : Tw T h0 O P m mu 
   · exact hR _ _ h2
 
 /-- Import a postcondition of the frozen run from the frame logic. -/
-theorem Tw.and_safe {m mu : M α} {R : α → α → Prop} {Q : α → Prop} {W : Nat → Prop}
-    (h : Tw T h0 O P m mu R) (hq : Safe h0.length W m Q) :
+theorem Tw.and_safe {m mu : M α} {R : α → α → Prop} {Q : α → Prop}
+    (h : Tw T h0 O P m mu R) (hq : Safe h0.length (fun _ => False) m Q) :
     Tw T h0 O P m mu (fun a au => R a au ∧ Q a) := by
   intro s su hs
   obtain ⟨h1, h2⟩ := h s su hs
@@ -1002,7 +1002,7 @@ def TwMake (X Xu : Ctx) (h0 : Heap) : Prop :=
 structure TwCtx (X Xu : Ctx) (h0 : Heap) : Prop where
   st : TwStatic X Xu h0
   ms : MakeSafe h0.length (fun _ => False) X
-  mk : TwMake X Xu h0
+  mks : TwMake X Xu h0
 
 theorem tw_fresh_of_writable {r : Ref} (h : Writable h0.length (fun _ => False) r) :
     FreshRef h0.length r := fun j hj => (h j hj).elim False.elim id
@@ -1136,7 +1136,6 @@ theorem seqExtract_sim (hS : TwStatic X Xu h0) (ik : Kind) (coll idx : Ref) (rai
   simp only [tw_typeOk hS hh]
   refine (getList_sim coll).bind (fun p' p hp => ?_)
   obtain ⟨rfl, _, _⟩ := hp
-  simp only
   refine Tw.ite (fun _ => ?_) (fun _ => ?_)
   · split
     · split
@@ -1146,5 +1145,1083 @@ theorem seqExtract_sim (hS : TwStatic X Xu h0) (ik : Kind) (coll idx : Ref) (rai
   · split
     · exact Tw.pure rfl
     · exact Tw.ite (fun _ => Tw.throwPy _) (fun _ => Tw.pure rfl)
+
+end SpecVerif.Heap
+
+namespace SpecVerif.Heap
+open SpecVerif.Py
+
+variable {α β : Type} {T : List ClassDecl} {h0 : Heap} {O P : List Nat} {X Xu : Ctx}
+
+theorem seqInsert_sim (hS : TwStatic X Xu h0) (ik : Kind) {coll : Ref} (idx : Option Ref)
+    (item : Ref) (insert : Bool) (hc : FreshRef h0.length coll) :
+    Tw X.T h0 O P (seqInsert X ik coll idx item insert) (seqInsert Xu ik coll idx item insert)
+      (fun _ _ => True) := by
+  unfold seqInsert
+  refine Tw.getHeap.bind (fun h hu hh => ?_)
+  simp only [tw_typeOk hS hh]
+  refine (tw_guardM _ _).bind (fun _ _ _ => ?_)
+  refine (getList_sim coll).bind (fun p' p hp => ?_)
+  obtain ⟨rfl, hp1, hp2⟩ := hp
+  have hw := hc p.1 hp1
+  split
+  · exact tw_write_coll hw hp2 trivial
+  · refine Tw.ite (fun _ => tw_write_coll hw hp2 trivial) (fun _ => ?_)
+    split
+    · exact tw_write_coll hw hp2 trivial
+    · exact Tw.throwPy _
+  · exact Tw.throwPy _
+
+theorem mapExtract_sim (coll key : Ref) (raise : Bool) :
+    Tw T h0 O P (mapExtract coll key raise) (mapExtract coll key raise) TwId := by
+  unfold mapExtract
+  refine (getDict_sim coll).bind (fun p' p hp => ?_)
+  obtain ⟨rfl, _, _⟩ := hp
+  split
+  · split
+    · exact Tw.pure rfl
+    · exact Tw.ite (fun _ => Tw.throwPy _) (fun _ => Tw.pure rfl)
+  · exact Tw.throwPy _
+
+theorem mapInsert_sim (hS : TwStatic X Xu h0) (ik : Kind) {coll : Ref} (key item : Ref)
+    (hc : FreshRef h0.length coll) :
+    Tw X.T h0 O P (mapInsert X ik coll key item) (mapInsert Xu ik coll key item)
+      (fun _ _ => True) := by
+  unfold mapInsert
+  refine Tw.getHeap.bind (fun h hu hh => ?_)
+  simp only [tw_typeOk hS hh]
+  refine (tw_guardM _ _).bind (fun _ _ _ => ?_)
+  split
+  · refine (tw_guardM _ _).bind (fun _ _ _ => ?_)
+    refine (getDict_sim coll).bind (fun p' p hp => ?_)
+    obtain ⟨rfl, hp1, hp2⟩ := hp
+    exact tw_write_coll (hc p.1 hp1) hp2 trivial
+  · exact Tw.throwPy _
+
+theorem setExtract_sim (coll v : Ref) (raise : Bool) :
+    Tw T h0 O P (setExtract coll v raise) (setExtract coll v raise) TwId := by
+  unfold setExtract
+  refine (getSet_sim coll).bind (fun p' p hp => ?_)
+  obtain ⟨rfl, _, _⟩ := hp
+  split
+  · refine Tw.ite (fun _ => Tw.pure rfl) (fun _ => ?_)
+    exact Tw.ite (fun _ => Tw.throwPy _) (fun _ => Tw.pure rfl)
+  · exact Tw.throwPy _
+
+theorem setInsert_sim (hS : TwStatic X Xu h0) (ik : Kind) {coll : Ref} (idx item : Ref)
+    (replace : Bool) (hc : FreshRef h0.length coll) :
+    Tw X.T h0 O P (setInsert X ik coll idx item replace) (setInsert Xu ik coll idx item replace)
+      (fun _ _ => True) := by
+  unfold setInsert
+  refine Tw.getHeap.bind (fun h hu hh => ?_)
+  simp only [tw_typeOk hS hh]
+  refine (tw_guardM _ _).bind (fun _ _ _ => ?_)
+  refine (getSet_sim coll).bind (fun p' p hp => ?_)
+  obtain ⟨rfl, hp1, hp2⟩ := hp
+  split
+  · exact tw_write_coll (hc p.1 hp1) hp2 trivial
+  · exact Tw.throwPy _
+
+/-! ## `mutate_value` without attribute steps -/
+
+theorem tw_cp_filter {kw : List (Nat × Ref)} {f : Nat × Ref → Bool}
+    (h : ∀ kv, kv ∈ kw → TwCp h0 O kv.2) : ∀ kv, kv ∈ kw.filter f → TwCp h0 O kv.2 :=
+  fun kv hkv => h kv (List.mem_filter.1 hkv).1
+
+theorem defaultConstruct_sim (hC : TwCtx X Xu h0) (k : Kind) (attrs : List (Nat × Ref))
+    (hattrs : ∀ kv, kv ∈ attrs → TwCp h0 O kv.2) :
+    Tw X.T h0 O P (defaultConstruct X k attrs) (defaultConstruct Xu k attrs) TwId := by
+  unfold defaultConstruct
+  cases k with
+  | int => exact Tw.pure rfl
+  | str => exact Tw.pure rfl
+  | listInt => exact (createColl_sim _).bind (fun r' r hr => by cases hr; exact Tw.pure rfl)
+  | listSpec c => exact (createColl_sim _).bind (fun r' r hr => by cases hr; exact Tw.pure rfl)
+  | dictStrInt => exact (createColl_sim _).bind (fun r' r hr => by cases hr; exact Tw.pure rfl)
+  | setInt => exact (createColl_sim _).bind (fun r' r hr => by cases hr; exact Tw.pure rfl)
+  | spec c =>
+    exact (hC.mks O P c _ (tw_cp_filter hattrs)).bind (fun r' r hr => by cases hr; exact Tw.pure rfl)
+
+theorem dictAsCtorArgs_sim (hC : TwCtx X Xu h0) (ctor : Option Kind) (value : Ref)
+    (attrs : List (Nat × Ref)) (hattrs : ∀ kv, kv ∈ attrs → TwCp h0 O kv.2) :
+    Tw X.T h0 O P (dictAsCtorArgs X ctor value attrs) (dictAsCtorArgs Xu ctor value attrs)
+      TwId := by
+  unfold dictAsCtorArgs
+  refine Tw.getHeap.bind (fun h hu hh => ?_)
+  cases ctor with
+  | none => exact Tw.pure rfl
+  | some k =>
+    cases value with
+    | sc s => exact Tw.pure rfl
+    | obj i =>
+      simp only
+      rcases hh.rel i with he | ⟨c', t, tu, fs, h1, h2⟩
+      · rw [he]
+        split
+        · refine Tw.ite (fun _ => Tw.pure rfl) (fun _ => ?_)
+          refine Tw.ite (fun _ => Tw.throwPy _) (fun _ => ?_)
+          split
+          · exact Tw.ite (fun _ => Tw.pure rfl) (fun _ => Tw.throwPy _)
+          · exact Tw.ite (fun _ => Tw.pure rfl) (fun _ => Tw.throwPy _)
+          · exact (hC.mks O P _ _ (tw_cp_filter hattrs)).bind
+              (fun r' r hr => by cases hr; exact Tw.pure rfl)
+          · exact Tw.throwPy _
+        · exact Tw.pure rfl
+      · simp only [h1, h2]
+        exact Tw.pure rfl
+
+theorem mvApply_sim (cb : Option (CbKind × Cb)) (v : Ref) :
+    Tw T h0 O P (mvApply cb v) (mvApply cb v) TwId := by
+  unfold mvApply
+  split
+  · exact invoke_sim _ _ _
+  · exact Tw.pure rfl
+
+theorem mvConstruct_sim (hC : TwCtx X Xu h0) (p : MV) (value : Ref)
+    (hattrs : ∀ kv, kv ∈ p.attrs → TwCp h0 O kv.2) :
+    Tw X.T h0 O P (mvConstruct X p value) (mvConstruct Xu p value) TwId := by
+  unfold mvConstruct
+  refine (dictAsCtorArgs_sim hC _ _ _ hattrs).bind (fun o' o ho => ?_)
+  cases ho
+  split
+  · exact Tw.pure rfl
+  · refine Tw.ite (fun _ => ?_) (fun _ => Tw.pure rfl)
+    split
+    · exact (defaultConstruct_sim hC _ _ hattrs).bind (fun r' r hr => by cases hr; exact Tw.pure rfl)
+    · exact Tw.pure rfl
+
+theorem mutateValue0_sim (hC : TwCtx X Xu h0) (p : MV) :
+    Tw X.T h0 O P (mutateValue0 X p) (mutateValue0 Xu p) TwId := by
+  unfold mutateValue0
+  refine (mvApply_sim _ _).bind (fun v1' v1 hv1 => ?_)
+  cases hv1
+  refine (mvConstruct_sim hC _ _ (fun kv hkv => by cases hkv)).bind (fun r' r hr => ?_)
+  cases hr
+  exact mvApply_sim _ _
+
+/-! ## Preparing a whole collection -/
+
+theorem seqAddAll_sim (hC : TwCtx X Xu h0) (d : AttrDecl) {coll : Ref}
+    (hc : FreshRef h0.length coll) :
+    ∀ items, Tw X.T h0 O P (seqAddAll X d coll items) (seqAddAll Xu d coll items)
+      (fun _ _ => True) := by
+  intro items
+  induction items with
+  | nil => exact Tw.pure trivial
+  | cons item rest ih =>
+    unfold seqAddAll
+    refine (mutateValue0_sim hC _).bind (fun v' v hv => ?_)
+    cases hv
+    exact (seqInsert_sim hC.st _ _ _ _ hc).bind (fun _ _ _ => ih)
+
+theorem mapAddAll_sim (hC : TwCtx X Xu h0) (d : AttrDecl) {coll : Ref}
+    (hc : FreshRef h0.length coll) :
+    ∀ items, Tw X.T h0 O P (mapAddAll X d coll items) (mapAddAll Xu d coll items)
+      (fun _ _ => True) := by
+  intro items
+  induction items with
+  | nil => exact Tw.pure trivial
+  | cons item rest ih =>
+    obtain ⟨k, item⟩ := item
+    unfold mapAddAll
+    refine (mapExtract_sim _ _ _).bind (fun e' e he => ?_)
+    cases he
+    refine (mutateValue0_sim hC _).bind (fun v' v hv => ?_)
+    cases hv
+    exact (mapInsert_sim hC.st _ _ _ hc).bind (fun _ _ _ => ih)
+
+theorem setAddAll_sim (hC : TwCtx X Xu h0) (d : AttrDecl) {coll : Ref}
+    (hc : FreshRef h0.length coll) :
+    ∀ items, Tw X.T h0 O P (setAddAll X d coll items) (setAddAll Xu d coll items)
+      (fun _ _ => True) := by
+  intro items
+  induction items with
+  | nil => exact Tw.pure trivial
+  | cons item rest ih =>
+    unfold setAddAll
+    refine (mutateValue0_sim hC _).bind (fun v' v hv => ?_)
+    cases hv
+    exact (setInsert_sim hC.st _ _ _ _ hc).bind (fun _ _ _ => ih)
+
+theorem addItems_sim (hC : TwCtx X Xu h0) (d : AttrDecl) (fam : Fam) {coll : Ref} (items : Ref)
+    (hc : FreshRef h0.length coll) :
+    Tw X.T h0 O P (addItems X d fam coll items) (addItems Xu d fam coll items)
+      (fun _ _ => True) := by
+  unfold addItems
+  refine Tw.getHeap.bind (fun h hu hh => ?_)
+  cases fam with
+  | map =>
+    simp only
+    cases items with
+    | sc s => exact Tw.throwPy _
+    | obj i =>
+      simp only
+      rcases hh.rel i with he | ⟨c', t, tu, fs, h1, h2⟩
+      · rw [he]
+        split
+        · exact mapAddAll_sim hC d hc _
+        · exact Tw.throwPy _
+      · simp only [h1, h2]
+        exact Tw.throwPy _
+  | seq =>
+    simp only [tw_iterItems hh]
+    split
+    · exact seqAddAll_sim hC d hc _
+    · exact Tw.throwPy _
+  | set =>
+    simp only [tw_iterItems hh]
+    split
+    · exact setAddAll_sim hC d hc _
+    · exact Tw.throwPy _
+
+theorem collPrepare_sim (hC : TwCtx X Xu h0) (d : AttrDecl) (fam : Fam) (coll : Ref) :
+    Tw X.T h0 O P (collPrepare X d fam coll) (collPrepare Xu d fam coll) TwId := by
+  unfold collPrepare
+  have h1 : Tw X.T h0 O P
+      (if (coll = .sc .none || coll = .sc .missing) = true then createColl fam else pure coll)
+      (if (coll = .sc .none || coll = .sc .missing) = true then createColl fam else pure coll)
+      TwId :=
+    Tw.ite (fun _ => createColl_sim fam) (fun _ => Tw.pure rfl)
+  refine h1.bind (fun coll'' coll' hc' => ?_)
+  cases hc'
+  refine Tw.getHeap.bind (fun h hu hh => ?_)
+  simp only [tw_typeOk hC.st hh, tw_collIsEmpty hh]
+  refine Tw.ite (fun _ => ?_) (fun _ => Tw.pure rfl)
+  refine ((createColl_sim fam).and_safe (createColl_safe fam)).bind (fun fresh' fresh hf => ?_)
+  obtain ⟨rfl, hfr⟩ := hf
+  exact (addItems_sim hC d fam _ hfr).bind (fun _ _ _ => Tw.pure rfl)
+
+theorem prepareAttrValue0_sim (hC : TwCtx X Xu h0) (d : AttrDecl) (v : Ref) :
+    Tw X.T h0 O P (prepareAttrValue0 X d v) (prepareAttrValue0 Xu d v) TwId := by
+  unfold prepareAttrValue0
+  refine (mutateValue0_sim hC _).bind (fun v1' v1 hv1 => ?_)
+  cases hv1
+  split
+  · exact collPrepare_sim hC d _ _
+  · exact Tw.pure rfl
+
+/-! ## `__setattr__` -/
+
+theorem setAttr_sim (hC : TwCtx X Xu h0) {obj : Ref} (a : Nat) (v : Ref) (force : Bool)
+    (ho : FreshRef h0.length obj)
+    (hg : force = true ∨ ∀ i, obj = .obj i → i ∈ O ∨ i ∈ P) :
+    Tw X.T h0 O P (setAttr X obj a v force) (setAttr Xu obj a v force) (fun _ _ => True) := by
+  unfold setAttr
+  refine (getInst_sim obj).bind (fun p pu hp => ?_)
+  obtain ⟨i, c, fs, t, tu, rfl, rfl, rfl, hflag⟩ := hp
+  simp only [hC.st.attr?]
+  have h1 : Tw X.T h0 O P
+      (match (X.cd c).attr? a with
+        | some d => prepareAttrValue0 X d v
+        | none => pure v)
+      (match (X.cd c).attr? a with
+        | some d => prepareAttrValue0 Xu d v
+        | none => pure v) TwId := by
+    cases (X.cd c).attr? a with
+    | some d => exact prepareAttrValue0_sim hC _ _
+    | none => exact Tw.pure rfl
+  refine h1.bind (fun v' v'u hv' => ?_)
+  cases hv'
+  exact (mutateAttr_sim hC _ a v' true true force (fun _ => ⟨ho, hg⟩)
+    (fun h => by cases h)).bind (fun _ _ _ => Tw.pure trivial)
+
+end SpecVerif.Heap
+
+namespace SpecVerif.Heap
+open SpecVerif.Py
+
+variable {α β : Type} {T : List ClassDecl} {h0 : Heap} {O P : List Nat} {X Xu : Ctx}
+
+/-! ## The attribute steps of `mutate_value` -/
+
+theorem setAttrs_sim (hC : TwCtx X Xu h0) {obj : Ref} (ho : FreshRef h0.length obj)
+    (hg : ∀ i, obj = .obj i → i ∈ O ∨ i ∈ P) :
+    ∀ kw, Tw X.T h0 O P (setAttrs X obj kw) (setAttrs Xu obj kw) (fun _ _ => True) := by
+  intro kw
+  induction kw with
+  | nil => exact Tw.pure trivial
+  | cons av rest ih =>
+    obtain ⟨a, v⟩ := av
+    unfold setAttrs
+    have h1 : Tw X.T h0 O P (if (v != .sc .missing) = true then setAttr X obj a v false else pure ())
+        (if (v != .sc .missing) = true then setAttr Xu obj a v false else pure ())
+        (fun _ _ => True) :=
+      Tw.ite (fun _ => setAttr_sim hC a v false ho (Or.inr hg)) (fun _ => Tw.pure trivial)
+    exact h1.bind (fun _ _ _ => ih)
+
+theorem applyAttrTransforms_sim (hC : TwCtx X Xu h0) {obj : Ref} (ho : FreshRef h0.length obj)
+    (hg : ∀ i, obj = .obj i → i ∈ O ∨ i ∈ P) :
+    ∀ kwf, Tw X.T h0 O P (applyAttrTransforms X obj kwf) (applyAttrTransforms Xu obj kwf)
+      (fun _ _ => True) := by
+  intro kwf
+  induction kwf with
+  | nil => exact Tw.pure trivial
+  | cons af rest ih =>
+    obtain ⟨a, f⟩ := af
+    unfold applyAttrTransforms
+    refine (getAttrD_sim obj a).bind (fun cur curu hcur => ?_)
+    cases hcur
+    refine (invoke_sim _ _ _).bind (fun tv tvu htv => ?_)
+    cases htv
+    have h1 : Tw X.T h0 O P
+        (if (tv != .sc .missing) = true then setAttr X obj a tv false else pure ())
+        (if (tv != .sc .missing) = true then setAttr Xu obj a tv false else pure ())
+        (fun _ _ => True) :=
+      Tw.ite (fun _ => setAttr_sim hC a tv false ho (Or.inr hg)) (fun _ => Tw.pure trivial)
+    exact h1.bind (fun _ _ _ => ih)
+
+theorem Tw.onError {T : List ClassDecl} {m mu : M α} {h hu : M Unit} {R : α → α → Prop}
+    {R' : Unit → Unit → Prop}
+    (hm : Tw T h0 O P m mu R) (hh : Tw T h0 O P h hu R') :
+    Tw T h0 O P (onError m h) (onError mu hu) R := by
+  intro s su hs
+  obtain ⟨h1, h2⟩ := hm s su hs
+  unfold SpecVerif.Heap.onError
+  match hms : m s, hmu : mu su with
+  | (.ok a, s'), (.ok au, su') =>
+    rw [hms, hmu] at h1 h2
+    exact ⟨h1, h2⟩
+  | (.error e, s'), (.error eu, su') =>
+    rw [hms, hmu] at h1 h2
+    have : eu = e := h2
+    subst this
+    simp only
+    obtain ⟨h3, h4⟩ := hh s' su' h1
+    match hhs : h s', hhu : hu su' with
+    | (.ok _, s''), (.ok _, su'') =>
+      rw [hhs, hhu] at h3
+      exact ⟨h3, rfl⟩
+    | (.error e', s''), (.error eu', su'') =>
+      rw [hhs, hhu] at h3 h4
+      exact ⟨h3, h4⟩
+    | (.ok _, s''), (.error eu', su'') =>
+      rw [hhs, hhu] at h4
+      exact False.elim h4
+    | (.error e', s''), (.ok _, su'') =>
+      rw [hhs, hhu] at h4
+      exact False.elim h4
+  | (.ok a, s'), (.error eu, su') =>
+    rw [hms, hmu] at h2
+    exact False.elim h2
+  | (.error e, s'), (.ok au, su') =>
+    rw [hms, hmu] at h2
+    exact False.elim h2
+
+/-- `with _rollback_on_error(r): body` on both sides: the saved nodes are related
+like the current ones, so restoring them keeps the simulation. -/
+theorem rollbackOnError_sim {T : List ClassDecl} {r : Ref} {body bodyu : M α} {R : α → α → Prop}
+    (hfresh : FreshRef h0.length r) (hb : Tw T h0 O P body bodyu R) :
+    Tw T h0 O P (rollbackOnError r body) (rollbackOnError r bodyu) R := by
+  cases r with
+  | sc s => exact hb
+  | obj v =>
+    intro s su hs
+    unfold rollbackOnError
+    simp only
+    rcases hs.getNode v with ⟨h1, h2⟩ | ⟨n, nu, h1, h2, hrel⟩
+    · rw [run_bind_err (tw_getNode_none h1), run_bind_err (tw_getNode_none h2)]
+      exact ⟨hs, rfl⟩
+    · rw [run_bind_ok (getNode_run_of h1), run_bind_ok (getNode_run_of h2)]
+      rcases hrel with ⟨hvO, rfl, hperm⟩ | ⟨hvO, c, fs, rfl, rfl, hf⟩
+      · cases nu with
+        | list xs => exact hb s su hs
+        | dict kvs => exact hb s su hs
+        | set xs => exact hb s su hs
+        | inst c t fs =>
+          exact Tw.onError hb
+            (Tw.write (hfresh v rfl) (Or.inl ⟨hvO, rfl, hperm⟩)) s su hs
+      · exact Tw.onError hb
+          (Tw.write (hfresh v rfl) (Or.inr ⟨hvO, c, fs, rfl, rfl, hf⟩)) s su hs
+
+/-- `with thawed(value), _rollback_on_error(value)` (the copy-on-write branch of `guarded`). -/
+theorem guarded_sim (hS : TwStatic X Xu h0) {v : Ref} {body bodyu : M α} {R : α → α → Prop}
+    (hv : FreshRef h0.length v)
+    (hb : ∀ O' P', (∀ i, v = .obj i → i ∈ O' ∨ i ∈ P') → Tw X.T h0 O' P' body bodyu R) :
+    Tw X.T h0 O P (guarded X false v body) (guarded Xu false v bodyu) R := by
+  unfold guarded
+  simp only [Bool.false_eq_true, if_false]
+  exact thawed_sim hS hv (fun O' P' hmem => rollbackOnError_sim hv (hb O' P' hmem))
+
+theorem tw_protect_step (hS : TwStatic X Xu h0) (safe : Bool) (value : Ref)
+    (hv : safe = true → FreshRef h0.length value) (hO : O = []) :
+    Tw X.T h0 O P (if safe = true then pure value else protect X value)
+      (if safe = true then pure value else protect Xu value)
+      (fun r ru => ru = r ∧ FreshRef h0.length r) :=
+  Tw.ite (fun hs => Tw.pure ⟨rfl, hv hs⟩)
+    (fun _ => (protect_sim hS value (Or.inl hO)).and_safe (protect_safe X hS.dnc value))
+
+theorem mvAttrs_sim (hC : TwCtx X Xu h0) (p : MV) (value : Ref) (safe used : Bool)
+    (hip : p.inplace = false) (hO : O = [] ∨ p.attrs = [])
+    (hv : safe = true → FreshRef h0.length value) :
+    Tw X.T h0 O P (mvAttrs X p value safe used) (mvAttrs Xu p value safe used) TwId := by
+  unfold mvAttrs
+  rw [hip]
+  refine Tw.ite (fun hc => ?_) (fun _ => ?_)
+  · have hO' : O = [] := by
+      rcases hO with h | h
+      · exact h
+      · rw [h] at hc; simp at hc
+    refine (tw_protect_step hC.st safe value hv hO').bind (fun value' value'u hv' => ?_)
+    obtain ⟨hveq, hfr⟩ := hv'
+    cases hveq
+    refine (guarded_sim hC.st hfr (fun O' P' hmem => setAttrs_sim hC hfr hmem _)).bind
+      (fun _ _ _ => ?_)
+    exact Tw.pure rfl
+  · exact Tw.ite (fun _ => Tw.throwPy _) (fun _ => Tw.pure rfl)
+
+theorem mvAttrTransforms_sim (hC : TwCtx X Xu h0) (p : MV) (value : Ref) (safe : Bool)
+    (hip : p.inplace = false) (hO : O = [] ∨ p.attrTransforms = [])
+    (hv : safe = true → FreshRef h0.length value) :
+    Tw X.T h0 O P (mvAttrTransforms X p value safe) (mvAttrTransforms Xu p value safe) TwId := by
+  unfold mvAttrTransforms
+  rw [hip]
+  refine Tw.ite (fun hc => ?_) (fun _ => Tw.pure rfl)
+  have hO' : O = [] := by
+    rcases hO with h | h
+    · exact h
+    · rw [h] at hc; simp at hc
+  refine (tw_protect_step hC.st safe value hv hO').bind (fun value' value'u hv' => ?_)
+  obtain ⟨hveq, hfr⟩ := hv'
+  cases hveq
+  refine (guarded_sim hC.st hfr
+    (fun O' P' hmem => applyAttrTransforms_sim hC hfr hmem _)).bind (fun _ _ _ => ?_)
+  exact Tw.pure rfl
+
+/-- `mutate_value(..., inplace=False)`.  Inside an open window (`O ≠ []`) it is
+only ever called without keyword attributes / attribute transforms. -/
+theorem mutateValue_sim (hC : TwCtx X Xu h0) (p : MV) (hip : p.inplace = false)
+    (hO : O = [] ∨ (p.attrs = [] ∧ p.attrTransforms = [])) :
+    Tw X.T h0 O P (mutateValue X p) (mutateValue Xu p) TwId := by
+  have hX := hC.st.dnc
+  have hM := hC.ms
+  unfold mutateValue
+  refine (mvApply_sim _ _).bind (fun v1 v1u hv1 => ?_)
+  cases hv1
+  have hattrs : ∀ kv, kv ∈ p.attrs → TwCp h0 O kv.2 := by
+    rcases hO with h | ⟨h, _⟩
+    · intro kv _; exact Or.inl h
+    · rw [h]; intro kv hkv; cases hkv
+  refine ((mvConstruct_sim hC p v1 hattrs).and_safe (mvConstruct_safe X hM p v1)).bind
+    (fun r2 r2u hr2 => ?_)
+  obtain ⟨hr2eq, hr2⟩ := hr2
+  cases hr2eq
+  have hsafe2 : r2.2.1 = true → FreshRef h0.length r2.1 := by
+    intro hs
+    rcases hr2 with ⟨_, h2⟩ | h
+    · rw [h2, hip] at hs; cases hs
+    · exact h
+  refine ((mvAttrs_sim hC p r2.1 r2.2.1 r2.2.2 hip (hO.imp id (fun h => h.1)) hsafe2).and_safe
+    (mvAttrs_safe X hX hM p r2.1 r2.2.1 r2.2.2 (fun h => (hsafe2 h).writable))).bind
+    (fun r3 r3u hr3 => ?_)
+  obtain ⟨hr3eq, hr3⟩ := hr3
+  cases hr3eq
+  refine ((mvApply_sim p.transform r3.1).and_safe (mvApply_safe p.transform r3.1)).bind
+    (fun v4 v4u hv4 => ?_)
+  obtain ⟨hv4eq, hv4⟩ := hv4
+  cases hv4eq
+  have hsafe4 : r3.2 = true → FreshRef h0.length v4 := by
+    intro hs
+    rcases hv4 with rfl | h
+    · exact tw_fresh_of_writable (hr3.1 hs)
+    · exact h
+  exact mvAttrTransforms_sim hC p v4 r3.2 hip (hO.imp id (fun h => h.2)) hsafe4
+
+theorem prepareAttrValue_sim (hC : TwCtx X Xu h0) (d : AttrDecl) (v : Ref)
+    (attrs : List (Nat × Ref)) (hO : O = [] ∨ attrs = []) :
+    Tw X.T h0 O P (prepareAttrValue X d v attrs) (prepareAttrValue Xu d v attrs) TwId := by
+  unfold prepareAttrValue
+  refine (mutateValue_sim hC _ rfl (hO.imp id (fun h => ⟨h, rfl⟩))).bind (fun v1 v1u hv1 => ?_)
+  cases hv1
+  split
+  · exact collPrepare_sim hC d _ _
+  · exact Tw.pure rfl
+
+end SpecVerif.Heap
+
+namespace SpecVerif.Heap
+open SpecVerif.Py
+
+variable {α β : Type} {T : List ClassDecl} {h0 : Heap} {O P : List Nat} {X Xu : Ctx}
+
+/-! ## Defaults -/
+
+theorem tw_alGet_mem {κ γ : Type} [DecidableEq κ] {k : κ} {v : γ} :
+    ∀ {l : List (κ × γ)}, alGet k l = some v → (k, v) ∈ l := by
+  intro l
+  induction l with
+  | nil => intro h; simp [alGet] at h
+  | cons kv rest ih =>
+    obtain ⟨k', v'⟩ := kv
+    intro h
+    simp only [alGet] at h
+    split at h
+    · rename_i hk
+      cases h
+      subst hk
+      exact List.mem_cons_self
+    · exact List.mem_cons_of_mem _ (ih h)
+
+theorem makeN_sim (hC : TwCtx X Xu h0) (c : Nat) :
+    ∀ n, Tw X.T h0 O P (makeN X c n) (makeN Xu c n) TwId := by
+  intro n
+  induction n with
+  | zero => exact Tw.pure rfl
+  | succ n ih =>
+    unfold makeN
+    refine (hC.mks O P c [] (fun kv hkv => by cases hkv)).bind (fun r ru hr => ?_)
+    cases hr
+    refine ih.bind (fun rs rsu hrs => ?_)
+    cases hrs
+    exact Tw.pure rfl
+
+theorem instantiate_sim (hC : TwCtx X Xu h0) (lit : Lit) :
+    Tw X.T h0 O P (instantiate X lit) (instantiate Xu lit) TwId := by
+  unfold instantiate
+  cases lit with
+  | sc s => exact Tw.pure rfl
+  | list xs => exact (Tw.alloc _).bind (fun j' j hj => by obtain ⟨rfl, _⟩ := hj; exact Tw.pure rfl)
+  | dict kvs => exact (Tw.alloc _).bind (fun j' j hj => by obtain ⟨rfl, _⟩ := hj; exact Tw.pure rfl)
+  | set xs => exact (Tw.alloc _).bind (fun j' j hj => by obtain ⟨rfl, _⟩ := hj; exact Tw.pure rfl)
+  | newInst c => exact hC.mks O P c [] (fun kv hkv => by cases hkv)
+  | listInst c n =>
+    refine (makeN_sim hC c n).bind (fun xs xsu hxs => ?_)
+    cases hxs
+    exact (Tw.alloc _).bind (fun j' j hj => by obtain ⟨rfl, _⟩ := hj; exact Tw.pure rfl)
+
+theorem defaultValue_sim (hC : TwCtx X Xu h0) (d : AttrDecl) :
+    Tw X.T h0 O P (defaultValue X d) (defaultValue Xu d) TwId := by
+  unfold defaultValue
+  rw [hC.st.specDef]
+  split
+  · exact Tw.pure rfl
+  · exact instantiate_sim hC _
+  · exact instantiate_sim hC _
+  · cases hr : alGet (d.owner, d.name) X.specDef with
+    | none => exact Tw.pure rfl
+    | some r =>
+      refine protect_sim hC.st r (Or.inr ?_)
+      exact hC.st.defs _ (List.mem_append_right _ (tw_alGet_mem hr))
+
+theorem lookupDefault_sim (hC : TwCtx X Xu h0) (d : AttrDecl) :
+    ∀ fuel c, Tw X.T h0 O P (lookupDefault X d fuel c) (lookupDefault Xu d fuel c) TwId := by
+  intro fuel
+  induction fuel with
+  | zero => intro c; unfold lookupDefault; exact Tw.pure rfl
+  | succ fuel ih =>
+    intro c
+    unfold lookupDefault
+    refine Tw.ite (fun _ => defaultValue_sim hC d) (fun _ => ?_)
+    simp only [hC.st.overrides, hC.st.base, hC.st.clsDict]
+    refine Tw.ite (fun _ => ?_) (fun _ => ?_)
+    · cases hr : alGet (c, d.name) X.clsDict with
+      | none => exact Tw.pure rfl
+      | some r =>
+        refine protect_sim hC.st r (Or.inr ?_)
+        exact hC.st.defs _ (List.mem_append_left _ (tw_alGet_mem hr))
+    · cases (X.cd c).base with
+      | none => exact Tw.pure rfl
+      | some b => exact ih b
+
+theorem lookupDefaultFor_sim (hC : TwCtx X Xu h0) (d : AttrDecl) (c : Nat) :
+    Tw X.T h0 O P (lookupDefaultFor X d c) (lookupDefaultFor Xu d c) TwId := by
+  unfold lookupDefaultFor
+  rw [hC.st.len]
+  exact lookupDefault_sim hC d _ c
+
+/-! ## `__delattr__` -/
+
+theorem tw_guard_false' {i c : Nat} {t tu : Bool}
+    (hflag : (i ∉ O ∧ tu = t ∧ (i ∈ P → tw_frz T c = false ∨ t = true)) ∨
+     (i ∈ O ∧ t = true ∧ tu = false ∧ tw_frz T c = true))
+    (force : Bool) (h : force = true ∨ i ∈ O ∨ i ∈ P) :
+    (!(force || t) && tw_frz T c) = false := by
+  have := tw_guard_false hflag force true (fun _ => h)
+  simpa using this
+
+theorem delAttr_sim (hC : TwCtx X Xu h0) {obj : Ref} (a : Nat) (force : Bool)
+    (ho : FreshRef h0.length obj)
+    (hg : force = true ∨ ∀ i, obj = .obj i → i ∈ O ∨ i ∈ P) :
+    Tw X.T h0 O P (delAttr X obj a force) (delAttr Xu obj a force) (fun _ _ => True) := by
+  have hS := hC.st
+  unfold delAttr
+  refine (getInst_sim obj).bind (fun p pu hp => ?_)
+  obtain ⟨i, c, fs, t, tu, rfl, rfl, rfl, hflag⟩ := hp
+  simp only
+  have hgf : (!(force || t) && (X.cd c).frozen) = false :=
+    tw_guard_false' hflag force (by
+      rcases hg with h | h
+      · exact Or.inl h
+      · exact Or.inr (h i rfl))
+  have hgu : (!(force || tu) && (Xu.cd c).frozen) = false := by
+    rw [hS.frozenu]; simp
+  rw [hgf, hgu]
+  refine (tw_guardM _ _).bind (fun _ _ _ => ?_)
+  simp only [hS.attr?]
+  have h1 : Tw X.T h0 O P
+      (match (X.cd c).attr? a with
+        | some d => if (!force) = true then lookupDefaultFor X d c else pure (.sc .missing)
+        | none => pure (.sc .missing))
+      (match (X.cd c).attr? a with
+        | some d => if (!force) = true then lookupDefaultFor Xu d c else pure (.sc .missing)
+        | none => pure (.sc .missing)) TwId := by
+    cases (X.cd c).attr? a with
+    | some d => exact Tw.ite (fun _ => lookupDefaultFor_sim hC _ _) (fun _ => Tw.pure rfl)
+    | none => exact Tw.pure rfl
+  refine h1.bind (fun dflt dfltu hd => ?_)
+  cases hd
+  refine Tw.ite (fun _ => ?_) (fun _ => ?_)
+  · refine (getInst_sim (.obj i)).bind (fun q qu hq => ?_)
+    obtain ⟨i', c', fs', t', tu', hi', rfl, rfl, hflag'⟩ := hq
+    cases hi'
+    simp only
+    exact Tw.ite (fun _ => Tw.write (ho i rfl) (tw_instRel_node hflag' _)) (fun _ => Tw.throwPy _)
+  · cases (X.cd c).attr? a with
+    | none => exact Tw.pure trivial
+    | some d =>
+      simp only
+      refine (prepareAttrValue_sim hC d dflt [] (Or.inr rfl)).bind (fun v vu hv => ?_)
+      cases hv
+      exact (mutateAttr_sim hC _ a v true true true (fun _ => ⟨ho, Or.inl rfl⟩)
+        (fun h => by cases h)).bind (fun _ _ _ => Tw.pure trivial)
+
+/-! ## `__init__` -/
+
+theorem parentKwargs_sim (hC : TwCtx X Xu h0) (c specC : Nat) (kw : List (Nat × Ref))
+    (hkw : ∀ kv, kv ∈ kw → TwCp h0 O kv.2) :
+    ∀ ds, Tw X.T h0 O P (parentKwargs X c specC kw ds) (parentKwargs Xu c specC kw ds) TwId := by
+  intro ds
+  induction ds with
+  | nil => exact Tw.pure rfl
+  | cons d ds ih =>
+    unfold parentKwargs
+    refine Tw.ite (fun _ => ih) (fun _ => ?_)
+    have h1 : Tw X.T h0 O P
+        (match alGet d.name kw with
+          | some v => if d.dnc = true then pure v else protect X v
+          | none => lookupDefaultFor X d c)
+        (match alGet d.name kw with
+          | some v => if d.dnc = true then pure v else protect Xu v
+          | none => lookupDefaultFor Xu d c) TwId := by
+      cases hv : alGet d.name kw with
+      | some v =>
+        exact Tw.ite (fun _ => Tw.pure rfl)
+          (fun _ => protect_sim hC.st v (hkw _ (tw_alGet_mem hv)))
+      | none => exact lookupDefaultFor_sim hC _ _
+    refine h1.bind (fun v vu hv => ?_)
+    cases hv
+    refine ih.bind (fun rest restu hrest => ?_)
+    cases hrest
+    exact Tw.pure rfl
+
+theorem initAttrs_sim (hC : TwCtx X Xu h0) {self : Ref} (c : Nat) (kw : List (Nat × Ref))
+    (copyArgs : Bool) (sel : AttrDecl → Bool) (hs : FreshRef h0.length self)
+    (hkw : copyArgs = true → ∀ kv, kv ∈ kw → TwCp h0 O kv.2) :
+    ∀ ds, Tw X.T h0 O P (initAttrs X self c kw copyArgs sel ds)
+      (initAttrs Xu self c kw copyArgs sel ds) (fun _ _ => True) := by
+  intro ds
+  induction ds with
+  | nil => exact Tw.pure trivial
+  | cons d ds ih =>
+    unfold initAttrs
+    refine Tw.bind (R := fun _ _ => True) ?_ (fun _ _ _ => ih)
+    refine Tw.ite (fun _ => ?_) (fun _ => Tw.pure trivial)
+    simp only
+    have hsup : copyArgs = true → TwCp h0 O ((alGet d.name kw).getD (.sc .missing)) := by
+      intro hca
+      cases hv : alGet d.name kw with
+      | none => exact tw_cp_sc _
+      | some v => exact hkw hca _ (tw_alGet_mem hv)
+    have h1 : Tw X.T h0 O P
+        (if ((alGet d.name kw).getD (.sc .missing) != .sc .missing) = true then
+            (if (copyArgs && !d.dnc) = true then protect X ((alGet d.name kw).getD (.sc .missing))
+             else pure ((alGet d.name kw).getD (.sc .missing)))
+          else lookupDefaultFor X d c)
+        (if ((alGet d.name kw).getD (.sc .missing) != .sc .missing) = true then
+            (if (copyArgs && !d.dnc) = true then protect Xu ((alGet d.name kw).getD (.sc .missing))
+             else pure ((alGet d.name kw).getD (.sc .missing)))
+          else lookupDefaultFor Xu d c) TwId :=
+      Tw.ite
+        (fun _ => Tw.ite (fun hca => protect_sim hC.st _ (hsup (by
+            cases copyArgs
+            · simp at hca
+            · rfl))) (fun _ => Tw.pure rfl))
+        (fun _ => lookupDefaultFor_sim hC _ _)
+    refine h1.bind (fun v vu hv => ?_)
+    cases hv
+    exact Tw.ite (fun _ => setAttr_sim hC _ _ _ hs (Or.inl rfl)) (fun _ => Tw.pure trivial)
+
+theorem constructBody_sim (hC : TwCtx X Xu h0) (c : Nat) (kw : List (Nat × Ref))
+    (hkw : ∀ kv, kv ∈ kw → TwCp h0 O kv.2) :
+    Tw X.T h0 O P (constructBody X c kw) (constructBody Xu c kw) TwId := by
+  have hS := hC.st
+  unfold constructBody
+  simp only [hS.unknownKw, hS.specOf, hS.attrs]
+  refine (tw_guardM _ _).bind (fun _ _ _ => ?_)
+  refine ((Tw.alloc _)).bind (fun i' i hi => ?_)
+  obtain ⟨rfl, hi0, hiO, hiP⟩ := hi
+  have hw : FreshRef h0.length (.obj i) := freshRef_obj hi0
+  refine (setThaw_sim true hi0 hiO hiP).bind (fun _ _ _ => ?_)
+  refine Tw.bind (R := fun _ _ => True) ?_ (fun _ _ _ => ?_)
+  · refine Tw.ite (fun _ => ?_) (fun _ => Tw.pure trivial)
+    refine (parentKwargs_sim hC _ _ _ hkw _).bind (fun pk pku hpk => ?_)
+    cases hpk
+    exact initAttrs_sim hC _ _ _ _ hw (fun h => by cases h) _
+  · refine (initAttrs_sim hC _ _ _ _ hw (fun _ => hkw) _).bind (fun _ _ _ => ?_)
+    exact (setThaw_sim false hi0 hiO hiP).bind (fun _ _ _ => Tw.pure rfl)
+
+theorem construct_sim (hS : TwStatic X Xu h0) :
+    ∀ fuel (O' P' : List Nat) c kw, (∀ kv, kv ∈ kw → TwCp h0 O' kv.2) →
+      Tw X.T h0 O' P' (construct X fuel c kw) (construct Xu fuel c kw) TwId := by
+  intro fuel
+  induction fuel with
+  | zero => intro O' P' c kw _; unfold construct; exact Tw.throwPy _
+  | succ fuel ih =>
+    intro O' P' c kw hkw
+    unfold construct
+    have hC : TwCtx { X with make := construct X fuel } { Xu with make := construct Xu fuel } h0 :=
+      ⟨hS.with_make _ _, fun c' kw' => construct_safe X hS.dnc fuel c' kw',
+        fun O'' P'' c' kw' hkw' => ih O'' P'' c' kw' hkw'⟩
+    exact constructBody_sim hC c kw hkw
+
+/-- Closing the two contexts gives a twin context. -/
+theorem tw_ctx_close (hS : TwStatic X Xu h0) : TwCtx X.close Xu.close h0 := by
+  refine ⟨hS.with_make _ _, makeSafe_close X hS.dnc, ?_⟩
+  intro O' P' c kw hkw
+  show Tw X.T h0 O' P' (construct X (X.T.length + 1) c kw) (construct Xu (Xu.T.length + 1) c kw) TwId
+  rw [hS.len]
+  exact construct_sim hS _ O' P' c kw hkw
+
+end SpecVerif.Heap
+
+namespace SpecVerif.Heap
+open SpecVerif.Py
+
+variable {α β : Type} {T : List ClassDecl} {h0 : Heap} {O P : List Nat} {X Xu : Ctx}
+
+/-! ## Scalar helpers (copy-on-write: no window is open when they start) -/
+
+theorem withAttr_sim (hC : TwCtx X Xu h0) (self : Ref) (a : Nat) (v : Ref)
+    (kw : List (Nat × Ref)) :
+    Tw X.T h0 [] P (withAttr X self a v kw false) (withAttr Xu self a v kw false) TwId := by
+  unfold withAttr
+  refine (getInst_sim self).bind (fun p pu hp => ?_)
+  obtain ⟨i, c, fs, t, tu, rfl, rfl, rfl, hflag⟩ := hp
+  simp only [hC.st.attr?]
+  cases (X.cd c).attr? a with
+  | none => exact Tw.throwPy _
+  | some d =>
+    simp only
+    refine (prepareAttrValue_sim hC d v kw (Or.inl rfl)).bind (fun v' v'u hv' => ?_)
+    cases hv'
+    exact mutateAttr_sim hC _ a v' false true false (fun h => by cases h) (fun _ => rfl)
+
+theorem protectIfUnchanged_sim (hC : TwCtx X Xu h0) (d : AttrDecl) (self : Ref) (cdnc : Bool)
+    (v : Ref) (inplace : Bool) :
+    Tw X.T h0 [] P (protectIfUnchanged X d self cdnc v inplace)
+      (protectIfUnchanged Xu d self cdnc v inplace) TwId := by
+  unfold protectIfUnchanged
+  refine (getAttrD_sim _ _).bind (fun cur curu hcur => ?_)
+  cases hcur
+  exact Tw.ite (fun _ => Tw.pure rfl) (fun _ => protect_sim hC.st v (Or.inl rfl))
+
+theorem updateAttr_sim (hC : TwCtx X Xu h0) (self : Ref) (a : Nat) (v : Ref)
+    (kw : List (Nat × Ref)) :
+    Tw X.T h0 [] P (updateAttr X self a v kw false) (updateAttr Xu self a v kw false) TwId := by
+  unfold updateAttr
+  refine (getInst_sim self).bind (fun p pu hp => ?_)
+  obtain ⟨i, c, fs, t, tu, rfl, rfl, rfl, hflag⟩ := hp
+  simp only [hC.st.attr?, hC.st.dncu]
+  cases (X.cd c).attr? a with
+  | none => exact Tw.throwPy _
+  | some d =>
+    simp only
+    refine (getAttrD_sim _ _).bind (fun old oldu hold => ?_)
+    cases hold
+    refine (mutateValue_sim hC _ rfl (Or.inl rfl)).bind (fun v1 v1u hv1 => ?_)
+    cases hv1
+    refine (protectIfUnchanged_sim hC _ _ _ _ _).bind (fun v2 v2u hv2 => ?_)
+    cases hv2
+    exact withAttr_sim hC _ a v2 []
+
+theorem transformAttr_sim (hC : TwCtx X Xu h0) (self : Ref) (a : Nat) (f : Option Cb)
+    (kwf : List (Nat × Cb)) :
+    Tw X.T h0 [] P (transformAttr X self a f kwf false) (transformAttr Xu self a f kwf false)
+      TwId := by
+  unfold transformAttr
+  refine (getInst_sim self).bind (fun p pu hp => ?_)
+  obtain ⟨i, c, fs, t, tu, rfl, rfl, rfl, hflag⟩ := hp
+  simp only [hC.st.attr?, hC.st.dncu]
+  cases (X.cd c).attr? a with
+  | none => exact Tw.throwPy _
+  | some d =>
+    simp only
+    refine (getAttrD_sim _ _).bind (fun old oldu hold => ?_)
+    cases hold
+    refine (mutateValue_sim hC _ rfl (Or.inl rfl)).bind (fun v1 v1u hv1 => ?_)
+    cases hv1
+    refine (protectIfUnchanged_sim hC _ _ _ _ _).bind (fun v2 v2u hv2 => ?_)
+    cases hv2
+    exact withAttr_sim hC _ a v2 []
+
+theorem resetAttr_sim (hC : TwCtx X Xu h0) (self : Ref) (a : Nat) :
+    Tw X.T h0 [] P (resetAttr X self a false) (resetAttr Xu self a false) TwId := by
+  unfold resetAttr
+  simp only [Bool.not_false, if_true]
+  refine ((deepcopy_sim hC.st self (Or.inl rfl)).and_safe
+    (deepcopy_safe X hC.st.dnc self)).bind (fun copy copyu hc => ?_)
+  obtain ⟨hceq, hfr⟩ := hc
+  cases hceq
+  refine (thawed_sim hC.st hfr
+    (fun O' P' hmem => delAttr_sim hC a false hfr (Or.inr hmem))).bind (fun _ _ _ => ?_)
+  exact Tw.pure rfl
+
+/-! ## Top-level helpers -/
+
+theorem update_sim (hC : TwCtx X Xu h0) (self : Ref) (kw : List (Nat × Ref)) :
+    Tw X.T h0 [] P (update X self kw false) (update Xu self kw false) TwId := by
+  unfold update
+  exact mutateValue_sim hC _ rfl (Or.inl rfl)
+
+theorem transform_sim (hC : TwCtx X Xu h0) (self : Ref) (kwf : List (Nat × Cb)) :
+    Tw X.T h0 [] P (transform X self kwf false) (transform Xu self kwf false) TwId := by
+  unfold transform
+  exact mutateValue_sim hC _ rfl (Or.inl rfl)
+
+theorem resetLoop_sim (hC : TwCtx X Xu h0) {self : Ref} (hs : FreshRef h0.length self)
+    (hg : ∀ i, self = .obj i → i ∈ O ∨ i ∈ P) :
+    ∀ ds, Tw X.T h0 O P (resetLoop X self ds) (resetLoop Xu self ds) (fun _ _ => True) := by
+  intro ds
+  induction ds with
+  | nil => exact Tw.pure trivial
+  | cons d ds ih =>
+    unfold resetLoop
+    exact (Tw.tryCatch (delAttr_sim hC _ _ hs (Or.inr hg)) (Tw.pure trivial)).bind
+      (fun _ _ _ => ih)
+
+theorem reset_sim (hC : TwCtx X Xu h0) (self : Ref) :
+    Tw X.T h0 [] P (reset X self false) (reset Xu self false) TwId := by
+  unfold reset
+  refine (getInst_sim self).bind (fun p pu hp => ?_)
+  obtain ⟨i, c, fs, t, tu, rfl, rfl, rfl, hflag⟩ := hp
+  simp only [Bool.not_false, if_true, hC.st.attrs]
+  refine ((deepcopy_sim hC.st _ (Or.inl rfl)).and_safe
+    (deepcopy_safe X hC.st.dnc _)).bind (fun copy copyu hc => ?_)
+  obtain ⟨hceq, hfr⟩ := hc
+  cases hceq
+  refine (thawed_sim hC.st hfr
+    (fun O' P' hmem => resetLoop_sim hC hfr hmem _)).bind (fun _ _ _ => ?_)
+  exact Tw.pure rfl
+
+/-! ## Element helpers -/
+
+theorem getCollection_sim (hC : TwCtx X Xu h0) (self : Ref) (a : Nat) :
+    Tw X.T h0 [] P (getCollection X self a false) (getCollection Xu self a false) TwId := by
+  unfold getCollection
+  refine (getInst_sim self).bind (fun p pu hp => ?_)
+  obtain ⟨i, c, fs, t, tu, rfl, rfl, rfl, hflag⟩ := hp
+  simp only [Bool.false_and]
+  refine (tw_guardM _ _).bind (fun _ _ _ => ?_)
+  refine (getAttrD_sim _ _).bind (fun coll collu hcoll => ?_)
+  cases hcoll
+  exact Tw.ite (fun _ => protect_sim hC.st coll (Or.inl rfl)) (fun _ => Tw.pure rfl)
+
+theorem ensureColl_sim (fam : Fam) (coll : Ref) :
+    Tw T h0 O P (ensureColl fam coll) (ensureColl fam coll) TwId := by
+  unfold ensureColl
+  exact Tw.ite (fun _ => createColl_sim fam) (fun _ => Tw.pure rfl)
+
+theorem elemSeq_sim (hC : TwCtx X Xu h0) (d : AttrDecl) {coll : Ref} (op : ElemOp)
+    (hc : FreshRef h0.length coll) :
+    Tw X.T h0 [] P (elemSeq X d coll op) (elemSeq Xu d coll op) (fun _ _ => True) := by
+  unfold elemSeq
+  cases op with
+  | rm key byIndex =>
+    simp only
+    refine (seqExtract_sim hC.st _ _ _ _ _).bind (fun e eu he => ?_)
+    cases he
+    split
+    · refine (getList_sim coll).bind (fun p' p hp => ?_)
+      obtain ⟨rfl, hp1, hp2⟩ := hp
+      split
+      · exact tw_write_coll (hc p.1 hp1) hp2 trivial
+      · exact Tw.throwPy _
+    · exact Tw.pure trivial
+  | add item key insert attrs =>
+    simp only
+    refine (seqExtract_sim hC.st _ _ _ _ _).bind (fun e eu he => ?_)
+    cases he
+    refine (mutateValue_sim hC _ rfl (Or.inl rfl)).bind (fun v vu hv => ?_)
+    cases hv
+    exact seqInsert_sim hC.st _ _ _ _ hc
+  | upd key item byIndex attrs =>
+    simp only
+    refine (seqExtract_sim hC.st _ _ _ _ _).bind (fun e eu he => ?_)
+    cases he
+    refine (mutateValue_sim hC _ rfl (Or.inl rfl)).bind (fun v vu hv => ?_)
+    cases hv
+    exact seqInsert_sim hC.st _ _ _ _ hc
+  | tr key f byIndex kwf =>
+    simp only
+    refine (seqExtract_sim hC.st _ _ _ _ _).bind (fun e eu he => ?_)
+    cases he
+    refine (mutateValue_sim hC _ rfl (Or.inl rfl)).bind (fun v vu hv => ?_)
+    cases hv
+    exact seqInsert_sim hC.st _ _ _ _ hc
+
+theorem elemMap_sim (hC : TwCtx X Xu h0) (d : AttrDecl) {coll : Ref} (op : ElemOp)
+    (hc : FreshRef h0.length coll) :
+    Tw X.T h0 [] P (elemMap X d coll op) (elemMap Xu d coll op) (fun _ _ => True) := by
+  unfold elemMap
+  cases op with
+  | rm key byIndex =>
+    simp only
+    refine (mapExtract_sim _ _ _).bind (fun e eu he => ?_)
+    cases he
+    refine (getDict_sim coll).bind (fun p' p hp => ?_)
+    obtain ⟨rfl, hp1, hp2⟩ := hp
+    split
+    · exact tw_write_coll (hc p.1 hp1) hp2 trivial
+    · exact Tw.pure trivial
+  | add item key insert attrs =>
+    simp only
+    refine (mapExtract_sim _ _ _).bind (fun e eu he => ?_)
+    cases he
+    refine (mutateValue_sim hC _ rfl (Or.inl rfl)).bind (fun v vu hv => ?_)
+    cases hv
+    exact mapInsert_sim hC.st _ _ _ hc
+  | upd key item byIndex attrs =>
+    simp only
+    refine (mapExtract_sim _ _ _).bind (fun e eu he => ?_)
+    cases he
+    refine (mutateValue_sim hC _ rfl (Or.inl rfl)).bind (fun v vu hv => ?_)
+    cases hv
+    exact mapInsert_sim hC.st _ _ _ hc
+  | tr key f byIndex kwf =>
+    simp only
+    refine (mapExtract_sim _ _ _).bind (fun e eu he => ?_)
+    cases he
+    refine (mutateValue_sim hC _ rfl (Or.inl rfl)).bind (fun v vu hv => ?_)
+    cases hv
+    exact mapInsert_sim hC.st _ _ _ hc
+
+theorem elemSet_sim (hC : TwCtx X Xu h0) (d : AttrDecl) {coll : Ref} (op : ElemOp)
+    (hc : FreshRef h0.length coll) :
+    Tw X.T h0 [] P (elemSet X d coll op) (elemSet Xu d coll op) (fun _ _ => True) := by
+  unfold elemSet
+  cases op with
+  | rm key byIndex =>
+    simp only
+    refine (setExtract_sim _ _ _).bind (fun e eu he => ?_)
+    cases he
+    refine (getSet_sim coll).bind (fun p' p hp => ?_)
+    obtain ⟨rfl, hp1, hp2⟩ := hp
+    split
+    · exact tw_write_coll (hc p.1 hp1) hp2 trivial
+    · exact Tw.pure trivial
+  | add item key insert attrs =>
+    simp only
+    refine (mutateValue_sim hC _ rfl (Or.inl rfl)).bind (fun v vu hv => ?_)
+    cases hv
+    exact setInsert_sim hC.st _ _ _ _ hc
+  | upd key item byIndex attrs =>
+    simp only
+    refine (setExtract_sim _ _ _).bind (fun e eu he => ?_)
+    cases he
+    refine (mutateValue_sim hC _ rfl (Or.inl rfl)).bind (fun v vu hv => ?_)
+    cases hv
+    exact setInsert_sim hC.st _ _ _ _ hc
+  | tr key f byIndex kwf =>
+    simp only
+    refine (setExtract_sim _ _ _).bind (fun e eu he => ?_)
+    cases he
+    refine (mutateValue_sim hC _ rfl (Or.inl rfl)).bind (fun v vu hv => ?_)
+    cases hv
+    exact setInsert_sim hC.st _ _ _ _ hc
+
+theorem mutateCollection_sim (hC : TwCtx X Xu h0) (d : AttrDecl) (fam : Fam) {coll : Ref}
+    (op : ElemOp) (hc : FreshRef h0.length coll) :
+    Tw X.T h0 [] P (mutateCollection X d fam coll op) (mutateCollection Xu d fam coll op)
+      TwId := by
+  unfold mutateCollection
+  refine ((ensureColl_sim fam coll).and_safe (ensureColl_safe fam hc.writable)).bind
+    (fun coll' coll'u hc' => ?_)
+  obtain ⟨hceq, hw⟩ := hc'
+  cases hceq
+  have hfr := tw_fresh_of_writable hw
+  refine Tw.bind (R := fun _ _ => True) ?_ (fun _ _ _ => Tw.pure rfl)
+  cases fam with
+  | seq => exact elemSeq_sim hC d op hfr
+  | map => exact elemMap_sim hC d op hfr
+  | set => exact elemSet_sim hC d op hfr
+
+theorem elemHelper_sim (hC : TwCtx X Xu h0) (self : Ref) (a : Nat) (op : ElemOp) :
+    Tw X.T h0 [] P (elemHelper X self a op false) (elemHelper Xu self a op false) TwId := by
+  unfold elemHelper
+  refine (getInst_sim self).bind (fun p pu hp => ?_)
+  obtain ⟨i, c, fs, t, tu, rfl, rfl, rfl, hflag⟩ := hp
+  simp only [hC.st.attr?]
+  cases (X.cd c).attr? a with
+  | none => exact Tw.throwPy _
+  | some d =>
+    simp only
+    cases d.kind.fam? with
+    | none => exact Tw.throwPy _
+    | some fam =>
+      simp only
+      refine ((getCollection_sim hC _ a).and_safe
+        (getCollection_safe X hC.st.dnc _ a false)).bind (fun coll0 coll0u h0' => ?_)
+      obtain ⟨hceq, hfr⟩ := h0'
+      cases hceq
+      refine (mutateCollection_sim hC d fam op (hfr rfl)).bind (fun coll1 coll1u h1 => ?_)
+      cases h1
+      exact mutateAttr_sim hC _ a coll1 false false false (fun h => by cases h) (fun _ => rfl)
+
+/-! ## The public operations -/
+
+/-- Every public operation not called in place runs alike under the frozen
+table and under its twin, up to the thaw windows of the frozen run (all closed
+again at the end: `O = []` before and after). -/
+theorem runOp_sim (hC : TwCtx X Xu h0) (op : Op) (hip : op.inplace = false) :
+    Tw X.T h0 [] P (runOp X op) (runOp Xu op) TwId := by
+  unfold runOp
+  refine Tw.getHeap.bind (fun h hu hh => ?_)
+  simp only [tw_kwOk hC.st hh]
+  refine (tw_guardM _ _).bind (fun _ _ _ => ?_)
+  cases op with
+  | construct c kw => exact hC.mks [] P c kw (fun _ _ => Or.inl rfl)
+  | setattr r a v => cases hip
+  | delattr r a => cases hip
+  | withAttr r a v kw ip => cases hip; exact withAttr_sim hC r a v kw
+  | updateAttr r a v kw ip => cases hip; exact updateAttr_sim hC r a v kw
+  | transformAttr r a f kwf ip => cases hip; exact transformAttr_sim hC r a f kwf
+  | resetAttr r a ip => cases hip; exact resetAttr_sim hC r a
+  | elem r a eop ip => cases hip; exact elemHelper_sim hC r a eop
+  | update r kw ip => cases hip; exact update_sim hC r kw
+  | transform r kwf ip => cases hip; exact transform_sim hC r kwf
+  | reset r ip => cases hip; exact reset_sim hC r
+  | deepcopy r => exact deepcopy_sim hC.st r (Or.inl rfl)
+
+theorem TwRes.eq_of_id {r ru : Except Exn α} (h : TwRes (TwId (α := α)) r ru) : r = ru := by
+  cases r <;> cases ru
+  · have : _ = _ := h; rw [this]
+  · exact False.elim h
+  · exact False.elim h
+  · have : _ = _ := h; rw [this]
+
+/-- With no window open the two heaps are equal. -/
+theorem TwSim.heap_eq {s su : MS} (hs : TwSim T h0 [] P s su) : s.heap = su.heap :=
+  List.ext_getElem? (fun i => (hs.same i (by simp)).symm)
+
+/-- The start states of the two runs are related. -/
+theorem tw_sim_start (h : Heap) (hcl : TwClosed h) (φ : List (CbKind × Nat)) :
+    TwSim T h [] [] { heap := h, faults := φ, budget := none }
+      { heap := h, faults := φ, budget := none } := by
+  refine ⟨rfl, Nat.le_refl _, fun _ _ => rfl, hcl, fun _ _ => rfl, ?_, ?_, ?_, ?_, rfl,
+    fun _ => rfl, rfl, rfl⟩
+  · intro i hi; cases hi
+  · intro i hi; cases hi
+  · intro i hi; cases hi
+  · intro i hi
+    rcases hi with hi | hi <;> cases hi
 
 end SpecVerif.Heap
